@@ -334,7 +334,7 @@ func (e *Exec) call(fn *ssa.Function, fc *FuncContract, st *State, x *ssa.Call) 
 // what that call returned / left behind (listed with the assumptions), over the locals, the
 // parameters and the count_calls ghosts (<callee>_retK), evaluated once those are recorded.
 func (e *Exec) assumeAfter(st *State, cc *ssa.CallCommon) {
-	if e.fc == nil || e.curFn != e.fn || len(e.fc.Lists["assume_after"]) == 0 {
+	if e.fc == nil || !e.ownCode() || len(e.fc.Lists["assume_after"]) == 0 {
 		return
 	}
 	var names []string
@@ -1204,7 +1204,7 @@ var _ = token.NoPos
 // postconditions ("Encode is called iff the compression flag is set").
 // recordRet stores the first result of a counted call in the ghost <name>_ret0.
 func (e *Exec) recordRet(st *State, name string, dst ssa.Value) {
-	if e.fc == nil || e.curFn != e.fn || dst == nil {
+	if e.fc == nil || !e.ownCode() || dst == nil {
 		return
 	}
 	for _, cl := range e.fc.Lists["count_calls"] {
@@ -1233,7 +1233,7 @@ func (e *Exec) recordRet(st *State, name string, dst ssa.Value) {
 }
 
 func (e *Exec) countCall(st *State, name string) {
-	if e.fc == nil || e.curFn != e.fn {
+	if e.fc == nil || !e.ownCode() {
 		return
 	}
 	for _, cl := range e.fc.Lists["count_calls"] {
@@ -1250,7 +1250,7 @@ func (e *Exec) countCall(st *State, name string) {
 // beforeCall: `before <callee>: <expr>` clauses are obligations at every call of
 // <callee> in the function under contract (then assumed).
 func (e *Exec) beforeCall(st *State, name string, pos token.Pos, args []Val) {
-	if e.fc == nil || e.curFn != e.fn {
+	if e.fc == nil || !e.ownCode() {
 		return
 	}
 	for _, cl := range e.fc.Lists["use_before"] {
@@ -1363,4 +1363,19 @@ func (e *Exec) specEnvLocals(st *State) *specCtx {
 		}
 	}
 	return c
+}
+
+// ownCode: is the code being executed the function under verification itself or one of its own
+// closures running inline (e.g. the function handed to sync.Once.Do)? Calls made there are counted
+// and checked against the before-clauses like the function's own calls.
+func (e *Exec) ownCode() bool {
+	if e.curFn == nil || e.curFn == e.fn {
+		return true
+	}
+	for p := e.curFn.Parent(); p != nil; p = p.Parent() {
+		if p == e.fn {
+			return true
+		}
+	}
+	return false
 }
